@@ -9,3 +9,7 @@ int printf(const char *fmt, ...) { (void)fmt; return nondet_vc_int(); }
 int fflush(FILE *f) { (void)f; return 0; }
 int puts(const char *s) { (void)s; return 0; }
 int putchar(int c) { return c; }
+
+/* glibc's isfinite() expands to __builtin_isfinite, for which CBMC 6.11 has no body (it would return an arbitrary
+ * value and mark the obligation "no-body"); exact IEEE definition */
+int __builtin_isfinite(double x) { return x == x && (x - x) == (x - x); }
